@@ -7,7 +7,8 @@ Local Open Scope Z_scope.
 
 (** what the driver observed after one op: success, every EpochInfo in iteration order, and the
     call log of the recording hooks as (recorder index, call) *)
-Record obs := { b_ok : bool; b_infos : state; b_log : list (nat * hook) }.
+(** [b_keys]: the store keys the infos were found under (as identifier ranks), in iteration order *)
+Record obs := { b_ok : bool; b_infos : state; b_keys : list nat; b_log : list (nat * hook) }.
 
 Record case := {
   c_k : nat;                     (* number of recording hooks registered in the MultiEpochHooks *)
@@ -27,7 +28,7 @@ Definition fan_ok (k : nat) (o : obs) : bool := list_eqb rec_hook_eqb (fanout k 
 Definition to_out (o : obs) : out := {| o_ok := b_ok o; o_infos := b_infos o; o_hooks := calls o |}.
 
 Definition out_matches (k : nat) (m : out) (o : obs) : bool :=
-  Bool.eqb (o_ok m) (b_ok o) && list_eqb einfo_eqb (o_infos m) (b_infos o) &&
+  Bool.eqb (o_ok m) (b_ok o) && list_eqb einfo_eqb (o_infos m) (b_infos o) && list_eqb Nat.eqb (ids (o_infos m)) (b_keys o) &&
   (Nat.eqb (length (fanout k (o_hooks m))) (length (b_log o))) &&
   forallb (fun i => list_eqb rec_hook_eqb (fanout k (proj i (o_hooks m)))
                              (filter (fun x => Nat.eqb (hook_id (snd x)) i) (b_log o)))
@@ -67,7 +68,24 @@ Definition pre (c : case) : bool :=
   let ops := map fst (c_tr c) in
   forallb (wfb (first_time ops)) (c_init c) && times_ok (first_time ops) ops && forallb add_wfb ops.
 
+(** every stored info sits under the key that is its own identifier, and no identifier is stored twice *)
+Fixpoint nodupb (l : list nat) : bool :=
+  match l with [] => true | x :: r => negb (existsb (Nat.eqb x) r) && nodupb r end.
+Definition keys_ok (o : obs) : bool := list_eqb Nat.eqb (b_keys o) (ids (b_infos o)) && nodupb (b_keys o).
+
+(** stored infos = initial ones + accepted additions *)
+Fixpoint count_ok (n : nat) (tr : list (op * obs)) : bool :=
+  match tr with
+  | [] => true
+  | (o, x) :: r =>
+      let n' := match o with Add _ _ _ => if b_ok x then S n else n | Block _ _ => n end in
+      Nat.eqb (length (b_infos x)) n' && count_ok n' r
+  end.
+
+Definition store_ok (c : case) : bool :=
+  forallb (fun x => keys_ok (snd x)) (c_tr c) && count_ok (length (c_init c)) (c_tr c).
+
 Definition violates (c : case) : bool :=
-  pre c &&
+  negb (store_ok c) || pre c &&
   negb (Pb_trace (c_init c) (map (fun x => (fst x, to_out (snd x))) (c_tr c)) &&
         forallb (fun x => fan_ok (c_k c) (snd x)) (c_tr c)).
